@@ -35,3 +35,38 @@ Proof.
   destruct (unit_of nm t) as [[num [den|]]|]; try discriminate.
   intros H. apply terms_eqb_sound in H. subst num. reflexivity.
 Qed.
+
+(* a KeyError reported for a text that does not parse comes from a term that was already reduced and does not resolve *)
+Lemma first_term_error_key tab l : first_term_error tab l = Some PKeyError ->
+  exists t, In t l /\ eval_term tab t = PKeyError.
+Proof.
+  induction l as [|t l IH]; cbn [first_term_error]; [discriminate|].
+  destruct (eval_term tab t) eqn:E; intros H.
+  - destruct (IH H) as (t' & Hin & Ht'). exists t'. split; [right; exact Hin|exact Ht'].
+  - exists t. split; [left; reflexivity|exact E].
+  - discriminate.
+  - discriminate.
+Qed.
+
+Lemma eval_term_key tab t : eval_term tab t = PKeyError -> resolve tab (fst t) = KeyErr.
+Proof.
+  unfold eval_term. destruct (resolve tab (fst t)) as [[u| |]|]; try discriminate; try reflexivity.
+  all: destruct (upow u (snd t)); discriminate.
+Qed.
+
+Theorem syntax_failure_key_error nm tab order ignore rules infos filtered terminals end_sym T s :
+  (forall t, parse_text order ignore rules infos filtered terminals end_sym T (to_text s) <> PTree t) ->
+  unit_parse_text nm tab order ignore rules infos filtered terminals end_sym T s = TUnit PKeyError ->
+  exists t, In t (reduced_terms nm (parse_failure_stack order ignore rules infos filtered terminals end_sym T (to_text s))) /\
+            resolve tab (fst t) = KeyErr.
+Proof.
+  intros Hnt. unfold unit_parse_text.
+  destruct (parse_text order ignore rules infos filtered terminals end_sym T (to_text s)) as [t| | |] eqn:E.
+  - exfalso. apply (Hnt t). reflexivity.
+  - destruct (first_term_error tab _) as [[| | |]|] eqn:F; try discriminate.
+    intros _. destruct (first_term_error_key _ _ F) as (t & Hin & Ht). exists t. split; [exact Hin|apply eval_term_key, Ht].
+  - destruct (first_term_error tab _) as [[| | |]|] eqn:F; try discriminate.
+    intros _. destruct (first_term_error_key _ _ F) as (t & Hin & Ht). exists t. split; [exact Hin|apply eval_term_key, Ht].
+  - destruct (first_term_error tab _) as [[| | |]|] eqn:F; try discriminate.
+    intros _. destruct (first_term_error_key _ _ F) as (t & Hin & Ht). exists t. split; [exact Hin|apply eval_term_key, Ht].
+Qed.
